@@ -469,7 +469,7 @@ class TreeGen:
             return e
         else:
             params = {"id": [None], "wrap": [None], "pair": [None, None], "sub": [(gl.base[0][0], [])],
-                      "fst": [("*", [gl.gen_ty(r, 0), gl.gen_ty(r, 0)])]}[d[1]]
+                      "fst": [("*", [gl.gen_ty(r, 1), gl.gen_ty(r, 0)])]}[d[1]]
         k = len(params)
         if r.random() < partial:
             k = r.randint(0, len(params))
@@ -644,7 +644,12 @@ class Renderer:
         if n == "*":
             self.used.add("product")
             a, b = args
-            if a[1] or r.random() < self.p_paren:      # left operand: an atom or bracketed
+            if a[1] and a[0] != "*" and r.random() < 0.4:
+                # F(X) * B: a pending operator is applied before the product is built
+                # (/repo d741af8; modelled, but outside the proved Renders relation)
+                left = [a[0], "("] + self.ty_args(a[1]) + [")"]
+                self.used.add("product-after-constructor")
+            elif a[1] or r.random() < self.p_paren:      # left operand: an atom or bracketed
                 left = ["("] + self.ty_in(a) + [")"]
             else:
                 left = [a[0]]
@@ -1161,7 +1166,8 @@ From TF Require Import Base.Hier Base.Ty Sub.Match Parse.ExMatch.
 # token-level fuzzing (used by C17 as well)
 
 PROBES = [": {A}", "- : (* {A})", "- : *", "{f} ²", ") {f}", ") : {A}", "- : {F} *", "{f} ½ 1", "( ) )", ", {f}",
-          "{f} ٣", "- : {A} :", "{f} : : {A}", "(- : {A}) : {A} )", "- : ({A} * ) ", "- : {F}({A}", "{f}(,)", ";", "- : _ *"]
+          "- : ({F}({A}) * {A})", "- : ({A} * {F}({A}) * {A})", "- : ({F}({A}, {A}) * {A})", "- : ({F} {A} * {A})",
+          "- : (({A} * {A}) * {F}({A}) * _)", "{f} ٣", "- : {A} :", "{f} : : {A}", "(- : {A}) : {A} )", "- : ({A} * ) ", "- : {F}({A}", "{f}(,)", ";", "- : _ *"]
 
 
 def parser_fuzz(rep: C.Report, rng: random.Random, n: int) -> dict:
@@ -1308,6 +1314,102 @@ def variant(rng, gl: GLang, e):
     return ("app", e, ("ann", ("dash",), gl.gen_ty(r, 0))), "shape"
 
 
+def tree_leaves(e):
+    """leaves of a tree in the order Expr.leaves() yields them"""
+    if e[0] == "app":
+        return tree_leaves(e[1]) + tree_leaves(e[2])
+    if e[0] == "ann":
+        return tree_leaves(e[1])
+    return [e]
+
+
+def numberize(rng, gl: GLang, e, nums: int):
+    """Replace sources by numbers 1..nums so that numbers repeat; some keep or
+    get an annotation."""
+    r = rng
+
+    def go(x):
+        if x[0] == "app":
+            return ("app", go(x[1]), go(x[2]))
+        if x[0] == "ann":
+            if x[1][0] in ("dash", "num") and r.random() < 0.75:
+                n = ("num", r.randint(1, nums))
+                return ("ann", n, x[2]) if r.random() < 0.5 else n
+            return ("ann", go(x[1]), x[2])
+        if x[0] in ("dash", "num") and r.random() < 0.75:
+            return ("num", r.randint(1, nums))
+        return x
+    return go(e)
+
+
+def defaults_case(gl: GLang, e, decl, nums: int, strings) -> list[dict]:
+    """parse(text, *supplied, defaults=True): a number without a supplied input
+    is ONE made-up source, whatever the notation.
+    (a) equal numbers are the same object, different numbers different objects,
+        supplied numbers the supplied objects;
+    (b) the result equals the parse of the same text with explicit fresh
+        Source() inputs for the missing numbers (structure, every node's type
+        after fix(), or the same error).
+    decl = declared types of the supplied inputs (numbers 1..len(decl))."""
+    E = gl.E
+    m = len(decl)
+    fails = []
+    tl = tree_leaves(e)
+    for s in strings:
+        ins_a = mk_inputs(gl, decl)
+        ins_b = mk_inputs(gl, decl) + [E.Source() for _ in range(m, nums)]
+        try:
+            ea, ca = gl.lang.parse(s, *ins_a, defaults=True), 0
+        except Exception as ex:   # noqa: BLE001
+            c = declared_family(gl, ex)
+            ea, ca, ia = None, (c if c is not None else 99), (type(ex).__name__ if c is not None else crash_site(ex))
+        try:
+            eb, cb = gl.lang.parse(s, *ins_b), 0
+        except Exception as ex:   # noqa: BLE001
+            c = declared_family(gl, ex)
+            eb, cb, ib = None, (c if c is not None else 99), type(ex).__name__
+        if ca != cb:
+            fails.append({"string": s, "what": "defaults=True and explicitly supplied fresh sources give different outcomes",
+                          "with_defaults": "parsed" if ca == 0 else ia, "with_supplied_sources": "parsed" if cb == 0 else ib})
+            continue
+        if ca != 0:
+            continue
+        la = list(ea.leaves())
+        full = list(ins_a) + [None] * (nums - m)
+        if len(la) == len(tl):
+            byn = {}
+            others = []
+            for leaf, obj in zip(tl, la):
+                if leaf[0] == "num":
+                    byn.setdefault(leaf[1], []).append(obj)
+                else:
+                    others.append(obj)
+            bad = None
+            for n, objs in byn.items():
+                if any(o is not objs[0] for o in objs):
+                    bad = f"number {n} denotes {len({id(o) for o in objs})} different objects"
+                elif n <= m and objs[0] is not ins_a[n - 1]:
+                    bad = f"number {n} is not the supplied input"
+                elif n > m and (any(objs[0] is o for o in others) or any(objs[0] is i for i in ins_a)):
+                    bad = f"the source made up for number {n} is another leaf of the expression as well"
+                if n > m:
+                    full[n - 1] = objs[0]
+            firsts = [objs[0] for objs in byn.values()]
+            if bad is None and len({id(o) for o in firsts}) != len(firsts):
+                bad = "two different numbers denote the same object"
+            if bad:
+                fails.append({"string": s, "what": "with defaults=True: " + bad})
+                continue
+        full = [x if x is not None else E.Source() for x in full]
+        cfa = fixed_canon(gl, ea, full)
+        cfb = fixed_canon(gl, eb, ins_b)
+        if cfa != cfb:
+            fails.append({"string": s, "what": "with defaults=True the result differs from the parse with explicitly "
+                          "supplied fresh sources (structure or the type of a node after fix())",
+                          "with_defaults": str(cfa), "with_supplied_sources": str(cfb)})
+    return fails
+
+
 def _ast(t):
     """JSON lists back to the tuples the generators use"""
     if isinstance(t, list):
@@ -1333,6 +1435,9 @@ def oracle_case(d: dict) -> list[dict]:
         return fails
     e = _ast(d["tree_ast"])
     decl = [_ast(t) if t is not None else None for t in d.get("input_decl", [])]
+    if d.get("defaults"):
+        strings = d.get("strings") or [d["string"]]
+        return defaults_case(gl, e, decl, d["numbers"], strings)
     evs, resv = spec_events(gl, e, len(decl))
     pcode, proot, pin, pname = replay_events(gl, evs, decl, resv)
     want = (pcode, fixed_canon(gl, proot, pin) if pcode == 0 else None)
@@ -1567,6 +1672,46 @@ def main(tier: str, seed: int, replay: str | None = None) -> int:
                     "what": "Language.parse and the parser model differ on a malformed string (K_C13)"},
                     has_input=False, signature=root_cause(gl, s, po, r["info"]))
 
+    # ---- defaults=True: unsupplied numbers are made-up sources, one per number
+    dstats = {"trees": 0, "strings": 0, "repeated_unsupplied_numbers": 0, "outcomes": {}}
+    nd_trees, nd_rend = (5, 4) if tier == "quick" else (12, 6)
+    for li, (gl, trees, mal) in enumerate(work):
+        tg = TreeGen(rng, gl)
+        made = 0
+        for _ in range(nd_trees * 12):
+            if made >= nd_trees:
+                break
+            e0, _ = tg.tree(rng.choice([2, 3, 3, 4]))
+            nums = rng.randint(1, 4)
+            e = numberize(rng, gl, e0, nums)
+            m = rng.randint(0, nums - 1)           # numbers 1..m are supplied, m+1..nums are not
+            cnt = {}
+            for leaf in tree_leaves(e):
+                if leaf[0] == "num":
+                    cnt[leaf[1]] = cnt.get(leaf[1], 0) + 1
+            rep_uns = [n for n, c in cnt.items() if n > m and c >= 2]
+            if tree_size(e) > 40 or not cnt or (not rep_uns and rng.random() < 0.85):
+                continue
+            made += 1
+            decl = [gl.gen_ty(rng, 1) if rng.random() < 0.4 else None for _ in range(m)]
+            strings = [plain_render(e)]
+            while len(strings) < nd_rend + 1:
+                _, s = Renderer(rng).render(e)
+                if len(s) <= 600:
+                    strings.append(s)
+            dstats["trees"] += 1
+            dstats["strings"] += len(strings)
+            dstats["repeated_unsupplied_numbers"] += len(rep_uns)
+            fails = defaults_case(gl, e, decl, nums, strings)
+            key = "agree" if not fails else "differ"
+            dstats["outcomes"][key] = dstats["outcomes"].get(key, 0) + 1
+            for fi, fl in enumerate(fails):
+                violation(f"defaults_{li}_{made}_{fi}", dict(fl, kind="oracle", defaults=True, language=gl.describe(),
+                    tree=tree_text(e), tree_ast=e, input_decl=decl, numbers=nums,
+                    call="Language.parse(string, *supplied, defaults=True) with len(supplied) = len(input_decl)"),
+                    has_input=True, signature="C13:defaults-number-not-one-object")
+    n_eval += dstats["strings"]
+
     # ---- Expr.match
     mpairs = []
     for (li, gl, e, decl, s, ex, inputs, canon) in match_items:
@@ -1645,6 +1790,7 @@ def main(tier: str, seed: int, replay: str | None = None) -> int:
         "notation_features_used": feats, "outcome_distribution": outcomes,
         "undeclared_exceptions_seen_(C17)": undeclared,
         "call_order_differences": pythonic_diff,
+        "defaults_true": dstats,
         "match_pairs": len(mpairs), "match_pairs_in_model": match_model, "match_distribution": mdist,
         "samples": samples, "violations_found": viol, "exhaustive": False,
         "wall_generate_s": round(time.time() - t_gen, 1)})
